@@ -95,11 +95,165 @@ def projecter():
     return int(m1.group(1)), X.lineno(src, m2.start())
 
 
+WIT = 'include/AIToolbox/POMDP/Algorithms/Witness.hpp'
+PBV = 'include/AIToolbox/POMDP/Algorithms/PBVI.hpp'
+PER = 'include/AIToolbox/POMDP/Algorithms/PERSEUS.hpp'
+LSU = 'include/AIToolbox/POMDP/Algorithms/LinearSupport.hpp'
+UTH = 'include/AIToolbox/POMDP/Utils.hpp'
+UTC = 'src/POMDP/Utils.cpp'
+
+
+def _body_after(src, header_rx, what):
+    """text of the brace block that follows the first match of header_rx"""
+    m = X.find1(header_rx, src, what)
+    i = src.index('{', m.end() - 1)
+    depth, j = 0, i
+    while j < len(src):
+        if src[j] == '{':
+            depth += 1
+        elif src[j] == '}':
+            depth -= 1
+            if depth == 0:
+                return src[i:j + 1], X.lineno(src, m.start())
+        j += 1
+    raise X.ExtractError('unbalanced braces after ' + what)
+
+
+def _uses_of_v(body):
+    """every use of the solver's value function variable `v` (as `v[...]`, `v.member`, `v =`, or bare), normalised"""
+    uses = []
+    for m in re.finditer(r'(?<![\w.:>])v\b(?!\w)', body):
+        rest = body[m.end():]
+        k = re.match(r'\s*(\[[^\]]*\](\s*\[[^\]]*\])*(\s*\.\s*\w+)*|\.\s*\w+(\s*\(\s*\))?|=(?!=)[^;]*)?', rest)
+        uses.append(re.sub(r'\s+', '', 'v' + (k.group(0) if k else '')))
+    return uses
+
+
+def levels():
+    """How each solver reads and grows its value function `v`.  The theorems ( *_consistent ) are about loops that project
+    the LAST list of `v` and append the new list, and never touch a stored list again (links refer to the previous list
+    by position: pruning / permuting it after it has been linked to would break every plan above it).  We pin the complete
+    list of uses of `v` in each operator() body."""
+    f = {}
+    grow = ['v.emplace_back']
+    conv = ['v[timestep-1]', 'v[timestep]']
+    spec = {
+        'IncrementalPruning': (IPH, rx('IncrementalPruning::operator() ( const M & model )'),
+                               ['v=makeValueFunction(S)', 'v[timestep-1]'] + grow + conv + ['v']),
+        'Witness': (WIT, rx('Witness::operator() ( const M & model )'),
+                    ['v=makeValueFunction(S)', 'v[timestep-1].size', 'v[timestep-1]'] + grow + conv + ['v']),
+        'LinearSupport': (LSU, rx('LinearSupport::operator() ( const M & model )'),
+                          ['v=makeValueFunction(S)', 'v[timestep-1]'] + grow + conv + ['v']),
+        'PERSEUS': (PER, rx('PERSEUS::operator() ( const M & model , const double minReward )'),
+                    ['v=makeValueFunction(S)', 'v[0][0].values.fill', 'v[timestep-1]', 'v.emplace_back', 'v[timestep-1]'] + conv + ['v']),
+    }
+    for name, (path, hdr, want) in spec.items():
+        src = X.strip_comments(X.read(path))
+        body, line = _body_after(src, hdr, name + '::operator()')
+        got = _uses_of_v(body)
+        if got != want:
+            raise X.ExtractError('%s::operator(): the uses of the value function `v` changed: %s (expected %s)' % (name, got, want))
+        X.find1(rx('++ timestep ;'), body, name + ': ++timestep')
+        f[name] = line
+    # PBVI (warm start): which list is projected
+    src = X.strip_comments(X.read(PBV))
+    body, line = _body_after(src, rx('PBVI::operator() ( const M & model , const std::vector<Belief> & beliefs , ValueFunction v )'),
+                             'PBVI::operator()(model, beliefs, v)')
+    got = _uses_of_v(body)
+    back = ['v.size()', 'v=makeValueFunction(S)', 'v.back()', 'v.emplace_back', 'v[v.size()-2]', 'v.size()', 'v.back()', 'v']
+    idx = ['v.size()', 'v=makeValueFunction(S)', 'v[timestep-1]', 'v.emplace_back', 'v[v.size()-2]', 'v.size()', 'v.back()', 'v']
+    if got == back:
+        f['pbviBack'] = True
+    elif got == idx:
+        f['pbviBack'] = False
+    else:
+        raise X.ExtractError('PBVI::operator()(model, beliefs, v): the uses of `v` changed: %s' % got)
+    X.find1(rx('if ( v.size ( ) == 0 )') + W + rx('v = makeValueFunction ( S ) ;'), body, 'PBVI: empty warm start replaced by makeValueFunction(S)')
+    X.find1(rx('auto projs = projecter (') + W + r'v(\.back\(\)|\[timestep\s*-\s*1\])' + W + rx(') ;'), body, 'PBVI: auto projs = projecter(<previous list>)')
+    f['PBVI'] = line
+    body2, _ = _body_after(src, rx('PBVI::operator() ( const M & model , ValueFunction v )'), 'PBVI::operator()(model, v)')
+    X.find1(rx('return operator() ( model , bGen ( beliefSize_ ) , v ) ;'), body2, 'PBVI::operator()(model, v) forwards v')
+    return f
+
+
+def witness_skip():
+    src = X.strip_comments(X.read(WIT))
+    body, line = _body_after(src, rx('Witness::operator() ( const M & model )'), 'Witness::operator()')
+    X.find1(rx('auto best = crossSumBestAtBelief ( *witness , projections[a] , a ) ;'), body, 'Witness: best = crossSumBestAtBelief(*witness, projections[a], a)')
+    push = X.find1(rx('U[a].push_back ( std::move ( best ) ) ;') + W + rx('lp.addOptimalRow ( U[a].back ( ) .values ) ;') + W +
+                   rx('addVariations ( projections[a] , U[a].back ( ) ) ;'), body, 'Witness: U[a].push_back(best); addOptimalRow; addVariations')
+    skip = re.search(rx('const auto sameValues = [&best] ( const VEntry & e ) { return e.values == best.values ; } ;') + W +
+                     rx('if ( std::any_of ( std::begin ( U[a] ) , std::end ( U[a] ) , sameValues ) ) {') + W +
+                     rx('agenda_.pop_back ( ) ; continue ; }') + W + rx('U[a].push_back'), body)
+    if not skip and re.search(r'sameValues|any_of', body):
+        raise X.ExtractError('Witness: the known-vector test before U[a].push_back has an unknown shape')
+    X.find1(rx('else') + W + rx('agenda_.pop_back ( ) ;'), body, 'Witness: else agenda_.pop_back()')
+    X.find1(rx('lp.findWitness ( agenda_.back ( ) )'), body, 'Witness: lp.findWitness(agenda_.back())')
+    return bool(skip), line
+
+
+def loops():
+    """the decisions of the point-based loops the models copy (perseusLoop, pbviStep / pbviSelect, lsScan / lsLoop): pinned, so
+    that a change of a comparison or of the call that assembles an entry is a broken tie even where the harness streams would
+    need luck to see it"""
+    per = X.strip_comments(X.read(PER))
+    X.find1(rx('if ( !start ) {') + W + rx('findBestAtPoint ( b , rbegin , rend , &currentValue , unwrap ) ;') + W +
+            rx('findBestAtPoint ( b , obegin , oend , &oldValue , unwrap ) ;') + W + rx('if ( currentValue >= oldValue ) continue ; }'), per,
+            'PERSEUS::crossSum: skip a belief iff currentValue >= oldValue')
+    X.find1(rx('result.emplace_back ( crossSumBestAtBelief ( b , projs ) ) ;'), per, 'PERSEUS::crossSum: result.emplace_back(crossSumBestAtBelief(b, projs))')
+    X.find1(rx('result.erase ( extractDominated ( rbegin , rend , unwrap ) , std::end ( result ) ) ;'), per, 'PERSEUS::crossSum: final extractDominated')
+    X.find1(rx('v.emplace_back ( crossSum ( projs , beliefs , v[timestep-1] ) ) ;'), per, 'PERSEUS: v.emplace_back(crossSum(projs, beliefs, v[timestep-1]))')
+    pb = X.strip_comments(X.read(PBV))
+    X.find1(rx('for ( const auto & b : bl )') + W + rx('result.emplace_back ( crossSumBestAtBelief ( b , projs , a ) ) ;'), pb,
+            'PBVI::crossSum: one crossSumBestAtBelief(b, projs, a) per belief')
+    X.find1(rx('result.erase ( extractDominated ( rbegin , rend , unwrap ) , rend ) ;'), pb, 'PBVI::crossSum: extractDominated')
+    X.find1(rx('projs[a][0] = crossSum ( projs[a] , a , beliefs ) ;'), pb, 'PBVI: projs[a][0] = crossSum(projs[a], a, beliefs)')
+    X.find1(rx('for ( const auto & belief : beliefs )') + W + rx('bound = extractBestAtPoint ( belief , begin , bound , end , unwrap ) ;') + W +
+            rx('w.erase ( bound , std::end ( w ) ) ;'), pb, 'PBVI: per-belief extractBestAtPoint, then erase(bound, end)')
+    ls = X.strip_comments(X.read(LSU))
+    X.find1(rx('const auto [ it , inserted ] = allSupports.emplace ( crossSumBestAtBelief ( corner , projections ) ) ;') + W +
+            rx('if ( inserted ) goodSupports.push_back ( *it ) ;'), ls, 'LinearSupport: corner supports')
+    X.find1(rx('auto support = crossSumBestAtBelief ( vertex , projections , &trueValue ) ;'), ls, 'LinearSupport: support = crossSumBestAtBelief(vertex, projections, &trueValue)')
+    X.find1(rx('if ( diff > tolerance_ && checkDifferentGeneral ( diff , tolerance_ ) )'), ls, 'LinearSupport: diff > tolerance_ && checkDifferentGeneral(diff, tolerance_)')
+    X.find1(rx('if ( it->belief.dot ( best.support->values ) > it->currentValue )'), ls, 'LinearSupport: obsolete-vertex test')
+    X.find1(rx('goodSupports.push_back ( *best.support ) ;'), ls, 'LinearSupport: goodSupports.push_back(*best.support)')
+    X.find1(rx('v.emplace_back ( std::move ( goodSupports ) ) ;'), ls, 'LinearSupport: v.emplace_back(goodSupports)')
+    pol = X.strip_comments(X.read(POL))
+    X.find1(rx('const auto & vlist = policy_[horizon] ;') + W + rx('const auto bestMatch = findBestAtPoint ( b , std::begin ( vlist ) , std::end ( vlist ) , nullptr , unwrap ) ;') + W +
+            rx('const size_t action = bestMatch->action ;') + W + rx('const size_t id = std::distance ( std::begin ( vlist ) , bestMatch ) ;'), pol,
+            'Policy::sampleAction(b, horizon): best entry of policy_[horizon], its action and its position')
+    X.find1(rx('const auto & vlist = policy_.back ( ) ;'), pol, 'Policy::sampleAction(b): policy_.back()')
+    X.find1(rx('Base ( s , a ) , O ( o ) , H ( v.size ( ) -1 ) , policy_ ( v )'), pol, 'Policy(s,a,o,v): H = v.size()-1, policy_ = v')
+
+
+def helpers():
+    """makeValueFunction / makeVEntry / crossSumBestAtBelief: the shapes the model copies"""
+    src = X.strip_comments(X.read(UTC))
+    X.find1(rx('return ValueFunction ( 1 , VList ( 1 , { values , 0 , VObs ( ) } ) ) ;'), src, 'makeValueFunction: one list, one entry {zeros, 0, no links}')
+    X.find1(rx('values.setZero ( ) ;'), src, 'makeValueFunction: values.setZero()')
+    h = X.strip_comments(X.read(UTH))
+    X.find1(rx('entry.observations.resize ( O ) ;'), h, 'makeVEntry: observations.resize(O)')
+    X.find1(rx('out.values += bestMatch->values ;'), h, 'crossSumBestAtBelief: out.values += bestMatch->values')
+    m = X.find1(rx('out.observations[o] = bestMatch->observations[') + W + r'(\w+)' + W + rx('] ;'), h, 'crossSumBestAtBelief: out.observations[o] = bestMatch->observations[0]')
+    if m.group(1) != '0':
+        raise X.ExtractError('crossSumBestAtBelief copies observations[%s], not the parent tag observations[0]' % m.group(1))
+    m = X.find1(rx('if ( tmp') + W + r'(>=|>)' + W + rx('bestValue ) {') + W + rx('bestValue = tmp ;') + W + rx('std::swap ( entry , helper ) ;'), h,
+                'crossSumBestAtBelief(all actions): if (tmp > bestValue) { bestValue = tmp; swap(entry, helper) }')
+    X.find1(rx('helper.action = a ;') + W + rx('crossSumBestAtBelief ( b , projs[a] , &helper , &tmp ) ;'), h, 'crossSumBestAtBelief(all actions): helper.action = a')
+    if m.group(1) != '>':
+        raise X.ExtractError('crossSumBestAtBelief(all actions) replaces its entry on `tmp %s bestValue`; the model (crossSumBestAtBeliefAll) has `>`' % m.group(1))
+    return True, X.lineno(h, m.start())
+
+
 def gen_c04():
     f = schedule()
     first, cl = cross_sum()
     k, pl = policy()
     z, jl = projecter()
+    lv = levels()
+    wskip, wl = witness_skip()
+    strict, hl = helpers()
+    loops()
     b = lambda x: 'true' if x else 'false'
     body = ['/- GENERATED by tools/extract_c04.py from the library source — do not edit. -/', 'namespace AITB.Gen.C04', '',
             f'/-- {IPH}:{f["line"]} — initial `stepsize` -/', f'def stepsize0 : Int := {f["stepsize0"]}',
@@ -114,6 +268,16 @@ def gen_c04():
             f'def policyLinkLevel : Nat := {k}',
             f'/-- {PRJ}:{jl} — link carried by the filler entry of an impossible observation -/',
             f'def projImpossibleLink : Nat := {z}',
+            f'/-- {WIT}:{wl} — Witness pops the agenda instead of adding a vector whose values are already in U[a] -/',
+            f'def witnessSkipsKnown : Bool := {b(wskip)}',
+            f'/-- {PBV}:{lv["PBVI"]} — the warm-startable PBVI projects `v.back()` (false: `v[timestep-1]`) -/',
+            f'def pbviProjectsBack : Bool := {b(lv["pbviBack"])}',
+            f'/-- {UTH}:{hl} — the all-actions crossSumBestAtBelief replaces its entry on a STRICTLY larger value -/',
+            f'def crossSumAllStrict : Bool := {b(strict)}',
+            '/-- pinned (ExtractError otherwise): in IncrementalPruning / Witness / LinearSupport / PERSEUS ::operator() the value function `v` is only',
+            '    created by makeValueFunction, read at [timestep-1] / [timestep], and grown by emplace_back — no stored list is modified after',
+            f'    being linked to (IncrementalPruning.hpp:{lv["IncrementalPruning"]}, Witness.hpp:{lv["Witness"]}, LinearSupport.hpp:{lv["LinearSupport"]}, PERSEUS.hpp:{lv["PERSEUS"]}) -/',
+            'def storedListsNeverModified : Bool := true',
             '', 'end AITB.Gen.C04', '']
     X.write_if_changed('C04', '\n'.join(body))
 
